@@ -118,15 +118,16 @@ def install():
 
 @H.ob(model="realfin", quick=400, thorough=900,
       targets=("clematis/engine/stages/t1.py:t1_propagate", "clematis/engine/util/parallel.py:run_parallel"), stubs=_POOL_STUB + ("t1.stable_key -> constant (T1 cache off)",),
-      bounds="3 active graphs (chain, cycle, seedless) sharing node ids, 4 symbolic real weights in [-2,2]; completion order: every permutation of 3; max_workers 2..4; perf metrics gate on/off; queue budget 0..3",
-      split={"perm": [0, 1, 2, 3, 4, 5]},
+      bounds="3 active graphs (chain, cycle, seedless) sharing node ids, 4 symbolic real weights in [-2,2]; completion order: every permutation of 3; max_workers 2..4; perf metrics gate on/off; queue budget 0..3; radius/layer caps loose (3,3), radius cap 1 (hit) or layer cap 1 (hit)",
+      split={"perm": [0, 1, 2, 3, 4, 5], "caps": [0, 1, 2]},
       note="C09.b parallel T1 over several graphs returns exactly the deltas (items, order) and counters of the sequential path for every completion order and worker count")
-def t1_parallel(w0: float, w1: float, w2: float, w3: float, perm: int, workers: int, qb: int, metrics: bool) -> bool:
+def t1_parallel(w0: float, w1: float, w2: float, w3: float, perm: int, workers: int, qb: int, metrics: bool, caps: int) -> bool:
     """
     pre: -2.0 <= w0 <= 2.0 and -2.0 <= w1 <= 2.0 and -2.0 <= w2 <= 2.0 and -2.0 <= w3 <= 2.0
-    pre: 0 <= perm < 6 and 2 <= workers <= 4 and 0 <= qb <= 3
+    pre: 0 <= perm < 6 and 2 <= workers <= 4 and 0 <= qb <= 3 and 0 <= caps <= 2
     post: _
     """
+    rc, icl = pick([(3, 3), (1, 3), (3, 1)], caps)   # loose caps / radius cap that is hit / layer cap that is hit
     def store():
         s = InMemoryGraphStore()
         s.upsert_nodes("g1", [Node(id="a", label="alpha"), Node(id="b", label="beta"), Node(id="c", label="gamma")])
@@ -138,7 +139,7 @@ def t1_parallel(w0: float, w1: float, w2: float, w3: float, perm: int, workers: 
 
     def run(parallel):
         perf = {"enabled": True, "parallel": {"enabled": parallel, "t1": True, "max_workers": workers}, "metrics": {"report_memory": metrics}}
-        t1 = {"queue_budget": qb, "radius_cap": 3, "iter_cap": 50, "iter_cap_layers": 3, "node_budget": 1.5, "edge_type_mult": dict(B12.MULT),
+        t1 = {"queue_budget": qb, "radius_cap": rc, "iter_cap": 50, "iter_cap_layers": icl, "node_budget": 1.5, "edge_type_mult": dict(B12.MULT),
               "decay": dict(B12.DECAYS[0]), "cache": {"enabled": False}}
         cfg = W.to_attr({"t1": t1, "perf": perf})
         ctx = NS(cfg=cfg, config=cfg, turn_id=1, agent_id="A")
@@ -160,15 +161,18 @@ from clematis.engine.stages.t2 import t2_semantic  # noqa: E402
 from clematis.engine.types import T1Result  # noqa: E402
 
 
+AGES = [None, ["2024-06-01T00:00:00Z", "2025-01-05T00:00:00Z", "2025-01-09T00:00:00Z"], ["2025-01-09T00:00:00Z", "2024-06-01T00:00:00Z", "2025-01-05T00:00:00Z"]]
+
+
 @H.ob(model="realfin", quick=400, thorough=900,
       targets=("clematis/engine/stages/t2/core.py:t2_semantic", "clematis/engine/stages/t2/parallel.py:collect_shard_hits", "clematis/engine/stages/t2/shard.py:merge_tier_hits_across_shards_dict", "clematis/memory/index.py:InMemoryIndex._iter_shards_for_t2"),
       stubs=_POOL_STUB + B11._STUBS + ("t2.shard._qscore (1e-9 quantisation) -> exact score under symbolic execution: scores closer than 1e-9 are outside the claim",),
-      bounds="memory M3 split into shards by max_workers 2..3; symbolic finite scores and threshold in [-1,1]; k_retrieval 1..3; tier list exact-only / exact+archive / archive-only (tier lists containing cluster_semantic: known finding, replayed natively only); owners all A; completion order: every permutation of 3",
-      split={"ts": [0, 1, 2], "k": [1, 2, 3]},
+      bounds="memory M3 split into shards by max_workers 2..3; symbolic finite scores and threshold in [-1,1]; k_retrieval 1..3; tier list exact-only / exact+archive / archive-only (tier lists containing cluster_semantic: known finding, replayed natively only); owners all A; which episodes are recent (exact tier) vs old by index over 3 age patterns (recent,recent,old / old,recent,recent / recent,old,recent: a shard may hold an already-returned recent episode followed by a new old one); completion order: every permutation of 3",
+      split={"ts": [0, 1, 2], "k": [1, 2, 3], "ap": [0, 1, 2]},
       note="C09.c parallel T2 over in-memory shards returns the items, order, scores and counters of the sequential path for every completion order and worker count")
-def t2_parallel(s0: float, s1: float, s2: float, thr: float, k: int, ts: int, perm: int, workers: int) -> bool:
+def t2_parallel(s0: float, s1: float, s2: float, thr: float, k: int, ts: int, perm: int, workers: int, ap: int) -> bool:
     """
-    pre: 1 <= k <= 3 and 0 <= ts <= 4 and 0 <= perm < 6 and 2 <= workers <= 3
+    pre: 1 <= k <= 3 and 0 <= ts <= 4 and 0 <= perm < 6 and 2 <= workers <= 3 and 0 <= ap <= 2
     pre: -1.0 <= s0 <= 1.0 and -1.0 <= s1 <= 1.0 and -1.0 <= s2 <= 1.0 and -1.0 <= thr <= 1.0
     post: _
     """
@@ -184,7 +188,7 @@ def t2_parallel(s0: float, s1: float, s2: float, thr: float, k: int, ts: int, pe
                "t1": {"cache": {"enabled": False}},
                "perf": {"enabled": True, "parallel": {"enabled": parallel, "t2": True, "max_workers": workers}, "metrics": {"report_memory": False}}}
         ctx = W.make_ctx(cfg, turn_id=2)
-        state = W.make_state(index=W.make_index(owners=["A", "A", "A"]))
+        state = W.make_state(index=W.make_index(owners=["A", "A", "A"], ts=pick(AGES, ap)))
         with W.CosineStub(scores), W.NumpyShim():
             return t2_semantic(ctx, state, "beta", T1Result(graph_deltas=[], metrics={}))
 
